@@ -24,6 +24,11 @@ def _bits(bs):
 def impl_queries(m):
     """the same (q ...) value the model's op_queries produces, computed through the public API"""
     fm = spec.build_fm(m)
+    q = build_queries(fm)
+    return q, spec.dump_fm(fm)
+
+
+def build_queries(fm):
     feats = fm.get_features()
     rels = fm.get_relations()
     fq = []
@@ -78,9 +83,8 @@ def impl_queries(m):
         except Exception:  # noqa: BLE001
             preds[key] = None
     impl_queries.last_preds = preds
-    after = spec.dump_fm(fm)
     return tag("q", tag("features", *fq), tag("relations", *rq), tag("listings", *listings),
-               tag("lookup", *lookup), tag("ctcs", *ctcs)), after
+               tag("lookup", *lookup), tag("ctcs", *ctcs))
 
 
 # ------------------------------------------------------------------------------ direct oracle
@@ -305,3 +309,30 @@ def run(ctx):
         if reply is not None:
             for clause, detail in oracle_c03(m, sx.loads(impl_reply)):
                 st.oracle_fail(label, req, clause, detail)
+    edit_then_query(ctx, st)
+
+
+def edit_then_query(ctx, st):
+    """the listings are asked for, one constraint is replaced through the public `ast` setter, and the listings are
+    asked for again on the SAME objects: they must be those of the edited model"""
+    from flamapy.core.models.ast import AST
+    T, OP = spec.T, spec.OP
+    A, B, C = T("A"), T("B"), T("C")
+    pairs = [(OP("IMPLIES", A, OP("AND", B, C)), OP("IMPLIES", A, OP("OR", B, C))),
+             (OP("IMPLIES", A, OP("OR", B, C)), OP("IMPLIES", A, OP("AND", B, C))),
+             (OP("REQUIRES", A, B), OP("OR", OP("AND", A, B), C)),
+             (OP("OR", OP("AND", A, B), C), OP("EXCLUDES", A, B)),
+             (OP("AND", OP("IMPLIES", A, B), OP("IMPLIES", B, C)), OP("OR", A, OP("AND", B, OP("NOT", C))))]
+    for first, second in pairs:
+        m1 = gen.free_model([first, OP("IMPLIES", B, C)])
+        m2 = gen.free_model([second, OP("IMPLIES", B, C)])
+        fm = spec.build_fm(m1)
+        try:
+            build_queries(fm)                                       # asked once before the edit
+            fm.get_constraints()[0].ast = AST(spec.build_node(second))
+            reply = build_queries(fm)
+            impl_reply = sx.dumps(reply)
+        except Exception as e:  # noqa: BLE001
+            impl_reply = f"(crash {spec.exn_name(e)} {type(e).__name__})"
+        req = sx.dumps(tag("queries", spec.fm_sx(m2)))
+        st.record("edit-then-query", req, impl_reply, ctx.model.call_raw(req), True)
